@@ -16,6 +16,8 @@ theorem copyItems_pres {cp} (hcp : CpOK cp) (h : Heap) (items : Items) : Pres h 
     unfold copyItems
     have p1 := hcp.pres h k v
     split
+    · exact ih h
+    split
     · rename_i h1 e he; rw [he] at p1; exact p1
     · rename_i h1 v' he
       rw [he] at p1
@@ -37,6 +39,8 @@ theorem copyItems_fresh {cp} (hcp : CpOK cp) (h : Heap) (items items' : Items) (
     unfold copyItems at hr
     have p1 := hcp.pres h k0 v
     have f1 := hcp.fresh h k0 v
+    split at hr
+    · exact ih h items' h' hr
     split at hr
     · simp at hr
     · rename_i h1 v' he
